@@ -57,6 +57,15 @@ func main() {
 	if r.Replay != "" {
 		// timing-dependent outcomes (which side of a race window a call fell on,
 		// machine lateness) may not reproduce; the history itself is replayed
+		if r.Phase == "client" {
+			var c clientCase
+			if err := r.ReplayCase(&c); err != nil {
+				fmt.Println("replay:", err)
+				return
+			}
+			guarded(r, "client", func() { runClientBatch(r, []clientCase{c}) })
+			return
+		}
 		if r.Phase == "app" {
 			var c appCase
 			if err := r.ReplayCase(&c); err != nil {
@@ -75,6 +84,25 @@ func main() {
 		return
 	}
 
+	if r.Phase == "client" {
+		n := r.N(360, 7200)
+		const batch = 30
+		for b := 0; b*batch < n; b++ {
+			if !r.Mine(b) {
+				continue
+			}
+			var cs []clientCase
+			for i := b * batch; i < (b+1)*batch && i < n; i++ {
+				cs = append(cs, genClient(r, i))
+			}
+			r.Begin(map[string]interface{}{"batch": b, "first": b * batch, "count": len(cs)})
+			if b < 1 {
+				r.Sample(cs[0])
+			}
+			guarded(r, "client", func() { runClientBatch(r, cs) })
+		}
+		return
+	}
 	if r.Phase == "app" {
 		n := r.N(960, 19200)
 		for b := 0; b*appBatch < n; b++ {
